@@ -35,7 +35,7 @@ LEVEL_TEXT = ("Exploration: thousands of generated cell histories per run; for e
               "charge are summed over all reservoirs of the before- and after-dumps and compared to 1e-6 relative; no amount negative.")
 FLOORS = {"quick": 200, "thorough": 3000}
 SHARDS = {"quick": 4, "thorough": 4}
-BUDGET = {"quick": 110, "thorough": 1600, "replay": 1}
+BUDGET = {"quick": 110, "thorough": 6400, "replay": 1}
 DBS = {"quick": ("phreeqc.dat", "phreeqc.dat", "phreeqc.dat", "wateq4f.dat", "pitzer.dat"),
        "thorough": ("phreeqc.dat", "phreeqc.dat", "wateq4f.dat", "pitzer.dat")}
 
@@ -186,6 +186,7 @@ def run_case(case, ctx, punch=None, on_step=None):
     -> number of steps completed"""
     if case["db"] not in G.DB:
         raise Discard("unknown_db")
+    os.chdir(ctx.scratch_dir())      # the engine writes `error.inp` into the current directory when a step does not converge
     P = G.plan(case, punch)
     I = lib.fresh(case["db"])
     try:
